@@ -7,6 +7,10 @@ CONSTANTS
   MaxTicks = 1
   MaxResub = 1
   QMax = 1
+  Timed = FALSE
+  CheckDelay = 40
+  Advances = {}
+  MaxNow = 0
   Urgent = FALSE
 VIEW View
 INVARIANTS TypeOK InOrder GapFree Bracketed NoSilentLoss
